@@ -171,6 +171,9 @@ func modeC03(e *Env) {
 	}
 }
 
+// forcedNameScheme >= 0: logFromAbstract uses this file-naming scheme (see logFileName) instead of drawing one
+var forcedNameScheme = -1
+
 // unitsFromAbstract concretises a TLC-generated unit sequence (strings of C02's alphabet).
 func logFromAbstract(r *rand.Rand, cfg WireCfg, gp GenParams, units []interface{}) *Log {
 	return logFromAbstractBases(r, cfg, gp, units, nil)
@@ -185,6 +188,9 @@ func logFromAbstractBases(r *rand.Rand, cfg WireCfg, gp GenParams, units []inter
 	}
 	ts := uint32(1600000000)
 	scheme := r.Intn(4)
+	if forcedNameScheme >= 0 {
+		scheme = forcedNameScheme
+	}
 	f := &LogFile{Name: logFileName(scheme, 0)}
 	if len(bases) > 0 {
 		f.Base = bases[0]
@@ -680,6 +686,26 @@ func modeC07(e *Env) {
 		}
 		RunStreamScenario(e.Rec, sc)
 	}
+	// file names that do not sort in the order the master switches through them (sequence rollover, numbering restarted, base
+	// name changed): an attempt that ends right after a rotation and in the file after it, then a clean one - whatever the seed
+	for scheme := 1; scheme <= 3; scheme++ {
+		forcedNameScheme = scheme
+		l := logFromAbstract(e.R, allCfgs()[e.R.Intn(len(allCfgs()))], smallGP(), []interface{}{"txxid", "ddl", "rotate", "txxid", "autorow", "rotate", "ddl", "txxid"})
+		forcedNameScheme = -1
+		start := l.Boundaries()[0]
+		evs, _ := l.Served(start)
+		for at, ev := range evs {
+			if ev.K != "rotate" || ev.Fake {
+				continue
+			}
+			for _, d := range []int{1, 4} {
+				a := defaultAttempt()
+				a.Fault = &Fault{Kind: "close", At: at + d}
+				id++
+				RunStreamScenario(e.Rec, &StreamScenario{ID: id, Fam: "c07", Log: l, Start: start, ServerID: 77, Attempts: []AttemptPlan{a, defaultAttempt(), defaultAttempt()}, Note: "names-that-do-not-sort"})
+			}
+		}
+	}
 	// (b) resumed attempts after transport faults and cancels
 	cfgs := allCfgs()
 	m := e.N(30, 300)
@@ -832,6 +858,11 @@ func stopPlans(l *Log, start Pos, r *rand.Rand, stride int) []AttemptPlan {
 		a.End = "idle"
 		a.StallAfter = i
 		out = append(out, a)
+		// ... and the master ending the dump at the same place - an ERR packet, a lost connection - with a transaction open
+		b := defaultAttempt()
+		b.Pacing = a.Pacing
+		b.Fault = &Fault{Kind: []string{"err", "close", "reset"}[n%3], At: i + 1, Code: 1236, Msg: "inside a transaction " + itoa(i)}
+		out = append(out, b)
 	}
 	// two stop causes in one session: the connection is lost on its own while the handler of transaction k is still busy, and
 	// then the handler fails / the caller cancels
@@ -941,6 +972,12 @@ func modeC05(e *Env) {
 	for li := 0; li < nlogs; li++ {
 		gp := smallGP()
 		l := GenLog(e.R, cfgs[e.R.Intn(len(cfgs))], gp, nil)
+		if li == 0 {
+			// whatever the seed: a history with transactions opened by BEGIN (stop points strictly inside them exist)
+			g2 := gp
+			g2.MaxStmts = 2
+			l = logFromAbstract(e.R, cfgs[e.R.Intn(len(cfgs))], g2, []interface{}{"txxid", "ddl", "txcommit", "autorow", "txxid"})
+		}
 		start := l.Boundaries()[0]
 		if _, ntx := servedInfo(l, start); ntx == 0 {
 			li--
